@@ -504,3 +504,83 @@ def check_accessors(ctx, repo):
 def accessors(ctx):
     """items / contains / grade / asfullmv / map / filter keep each value with its own key (ORD by tokens)."""
     check_accessors(ctx, ctx.repo)
+
+
+# --------------------------------------------------------------------------- grade index tables and views
+@rule("C15.grade-indices", props=["C15", "C04", "C13"], min_instances=3, mutants=[
+    ("grade table keyed by name length", ("algebra", "        return {length - 1: tuple(self.canon2bin[blade] for blade in blades)", "        return {length: tuple(self.canon2bin[blade] for blade in blades)")),
+    ("multi-grade table concatenates in reverse", ("algebra", "        return {comb: sum((self.indices_for_grade[grade] for grade in comb), ())", "        return {comb: sum((self.indices_for_grade[grade] for grade in reversed(comb)), ())")),
+])
+def grade_indices(ctx):
+    """Algebra.indices_for_grade / indices_for_grades list, per grade (tuple), the keys of that grade in canonical
+    order - the tables the constructor, grade(), asfullmv() and graded mode rely on."""
+    from .c01 import build_algebra, read_named_basis
+    from ..absint import Raised
+    repo = ctx.repo
+    basis, pqr = read_named_basis(repo, "2DPGA")
+    for label, kwargs in (("default d=3", dict(p=3)), ("named basis 2DPGA", dict(p=pqr[0], q=pqr[1], r=pqr[2], basis=basis)),
+                          ("default d=1", dict(p=1))):
+        c = f"algebra.Algebra.indices_for_grades#{label}"
+        fn = ctx.func("algebra.Algebra.indices_for_grades")
+        try:
+            it, alg = build_algebra(repo, **kwargs)
+            one = it._instance_attr(alg, "indices_for_grade")
+            alg.attrs["indices_for_grade"] = one
+            many = it._instance_attr(alg, "indices_for_grades")
+        except NoValue as exc:
+            raise Unknown(c, str(exc), fn)
+        except Raised as r:
+            ctx.violation(c, f"raises {r.name}", fn)
+            continue
+        c2b = alg.attrs["canon2bin"]
+        d = alg.attrs["d"]
+        want_one = {g: tuple(k for n, k in c2b.items() if len(n) - 1 == g) for g in range(d + 1)}
+        problems = []
+        if not isinstance(one, dict) or one != want_one:
+            problems.append(f"indices_for_grade is {one!r}, expected {want_one}")
+        if isinstance(many, dict):
+            from itertools import combinations
+            for r_ in range(d + 2):
+                for comb in combinations(range(d + 1), r_):
+                    want = tuple(k for g in comb for k in want_one[g])
+                    if many.get(comb) != want:
+                        problems.append(f"indices_for_grades[{comb}] is {many.get(comb)!r}, expected {want}")
+                        break
+                else:
+                    continue
+                break
+        else:
+            problems.append(f"indices_for_grades is {many!r}")
+        if problems:
+            ctx.violation(c, "; ".join(problems[:2]), fn)
+        else:
+            ctx.ok(c, fn, grades=d + 1)
+
+
+@rule("C15.views", props=["C15"], min_instances=6, mutants=[
+    ("grades from the number of stored values", ("multivector", "        return tuple(sorted({bin(ind).count('1') for ind in self.keys()}))", "        return tuple(sorted({bin(ind).count('1') for ind in range(len(self.keys()))}))")),
+    ("len counts the keys of the algebra", ("multivector", "    def __len__(self):\n        return len(self._values)", "    def __len__(self):\n        return len(self.algebra)")),
+])
+def views(ctx):
+    """grades, len, bool, keys, values of a stored multivector reflect exactly what is stored."""
+    repo = ctx.repo
+    M = "multivector.MultiVector"
+    cells = [((4, 3, 0, 7), (0, 1, 2, 3)), ((6,), (2,)), ((), ()), ((1, 2, 4), (1,))]
+    for keys, want_grades in cells:
+        mv = _mv(keys=keys, vals=tuple(f"V{i}" for i in range(len(keys))))
+        for name, want in (("grades", want_grades), ("__len__", len(keys)), ("__bool__", bool(keys)), ("keys", keys)):
+            c = f"{M}.{name}#{keys}"
+            fn = ctx.func(f"{M}.{name}")
+            it = make_interp(repo)
+            try:
+                if name == "grades":
+                    got = it._instance_attr(mv, "grades")
+                    out = ("return", got)
+                else:
+                    out = it.run(f"{M}.{name}", [mv])
+            except NoValue as exc:
+                raise Unknown(c, str(exc), fn)
+            if out == ("return", want) or (out[0] == "return" and isinstance(out[1], (tuple, list)) and tuple(out[1]) == want):
+                ctx.ok(c, fn)
+            else:
+                ctx.violation(c, f"{name} of a multivector storing keys {keys} is {out[1]!r}, expected {want!r}", fn)
